@@ -342,3 +342,178 @@ Proof.
   induction H as [|p q l1 l2 [Hid [Hc Hg]] _ IH]; cbn; auto.
   rewrite IH, !calls_spec, !sgroup_spec, Hid, Hc, Hg. reflexivity.
 Qed.
+
+(* ------------------------------------------------------------------ never adds, removes, reorders or renames *)
+(* the key of an item: what it is and, for a value, its name *)
+Definition key (i : item) : item := match i with IValue n _ => IValue n VNone | _ => i end.
+Definition prefix {T} (a b : list T) := exists r, b = a ++ r.
+
+Lemma prefix_refl : forall {T} (a : list T), prefix a a.
+Proof. intros; exists []; rewrite app_nil_r; reflexivity. Qed.
+Lemma prefix_trans : forall {T} (a b c : list T), prefix a b -> prefix b c -> prefix a c.
+Proof. intros T a b c [r ->] [r' ->]. exists (r ++ r'). rewrite app_assoc; reflexivity. Qed.
+Lemma prefix_app_r : forall {T} (a b c : list T), prefix a b -> prefix a (b ++ c).
+Proof. intros T a b c [r ->]. exists (r ++ c). rewrite app_assoc; reflexivity. Qed.
+Lemma prefix_app_l : forall {T} (a b c : list T), prefix b c -> prefix (a ++ b) (a ++ c).
+Proof. intros T a b c [r ->]. exists r. rewrite app_assoc; reflexivity. Qed.
+Lemma prefix_map : forall {T U} (f : T -> U) a b, prefix a b -> prefix (map f a) (map f b).
+Proof. intros T U f a b [r ->]. exists (map f r). apply map_app. Qed.
+Lemma prefix_cut : forall l, prefix (cut l) l.
+Proof.
+  induction l as [|i r [x IH]]; cbn; [apply prefix_refl|].
+  destruct (is_panic i); [exists r; reflexivity | exists x; cbn; congruence].
+Qed.
+Lemma cut_app_panicked : forall a b, panicked a = true -> cut (a ++ b) = cut a.
+Proof.
+  unfold panicked; induction a as [|i r IH]; intros b H; cbn in *; [discriminate|].
+  destruct (is_panic i); auto. cbn in H. rewrite IH; auto.
+Qed.
+Lemma cut_app_clean : forall a b, panicked a = false -> cut (a ++ b) = a ++ cut b.
+Proof.
+  unfold panicked; induction a as [|i r IH]; intros b H; cbn in *; auto.
+  apply orb_false_iff in H as [H1 H2]. rewrite H1, IH; auto.
+Qed.
+
+Lemma key_i_dims : forall d i, key (i_dims d i) = key i.
+Proof. destruct i; reflexivity. Qed.
+Lemma key_i_gdims : forall d deny i, key (i_gdims d deny i) = key i.
+Proof. destruct i as [| |n c]; cbn; auto. destruct (mem n deny); reflexivity. Qed.
+Lemma key_i_force : forall f i, key (i_force f i) = key i.
+Proof. destruct i; reflexivity. Qed.
+Lemma key_s_item : forall it, key (s_item it) = key (leaf_item it).
+Proof. destruct it; reflexivity. Qed.
+
+Definition keys (l : list item) := map key l.
+Definition leaf_keys (e : wentry) := keys (map leaf_item (leaves e)).
+
+Lemma spec_keys : forall e,
+  prefix (keys (spec_calls e)) (leaf_keys e) /\ (panicked (spec_calls e) = false -> keys (spec_calls e) = leaf_keys e).
+Proof.
+  unfold leaf_keys, keys.
+  induction e; cbn [spec_calls leaves]; try (split; [apply prefix_refl | reflexivity]); auto.
+  - (* Plain *)
+    assert (map key (map s_item s) = map key (map leaf_item s)) as E
+      by (rewrite !map_map; apply map_ext; apply key_s_item).
+    split.
+    + rewrite <- E. apply prefix_map, prefix_cut.
+    + intros H. rewrite panicked_cut in H. rewrite cut_no_panic; auto.
+  - (* Merged *)
+    destruct IHe1 as [P1 F1], IHe2 as [P2 F2]. rewrite !map_app.
+    destruct (panicked (spec_calls e1)) eqn:Pa.
+    + rewrite cut_app_panicked, spec_calls_cut by exact Pa. split.
+      * apply prefix_app_r; exact P1.
+      * rewrite Pa; discriminate.
+    + rewrite cut_app_clean, spec_calls_cut by exact Pa. rewrite map_app, F1 by reflexivity. split.
+      * apply prefix_app_l; exact P2.
+      * intros H. rewrite panicked_app, Pa in H. cbn in H. rewrite F2; auto.
+  - (* MergedRef *)
+    destruct IHe1 as [P1 F1], IHe2 as [P2 F2]. rewrite !map_app.
+    destruct (panicked (spec_calls e1)) eqn:Pa.
+    + rewrite cut_app_panicked, spec_calls_cut by exact Pa. split.
+      * apply prefix_app_r; exact P1.
+      * rewrite Pa; discriminate.
+    + rewrite cut_app_clean, spec_calls_cut by exact Pa. rewrite map_app, F1 by reflexivity. split.
+      * apply prefix_app_l; exact P2.
+      * intros H. rewrite panicked_app, Pa in H. cbn in H. rewrite F2; auto.
+  - (* WithDimsE *) destruct IHe as [P F]. rewrite map_map, (map_ext _ key) by apply key_i_dims.
+    rewrite panicked_map_same by apply i_dims_is_panic. auto.
+  - (* WithGDimsE *) destruct IHe as [P F]. rewrite map_map, (map_ext _ key) by apply key_i_gdims.
+    rewrite panicked_map_same by apply i_gdims_is_panic. auto.
+  - (* ForceE *) destruct IHe as [P F].
+    assert (map key (map (i_force f) (spec_calls e)) = map key (spec_calls e)) as E
+      by (rewrite map_map; apply map_ext; apply key_i_force).
+    split.
+    + eapply prefix_trans; [apply prefix_map, prefix_cut | rewrite E; exact P].
+    + intros H. rewrite panicked_cut in H. rewrite cut_no_panic, E by exact H.
+      apply F. eapply panicked_map_keeps; [apply i_force_keeps | exact H].
+  - (* WithDimsI *) destruct IHe as [P F]. rewrite map_map, (map_ext _ key) by apply key_i_dims.
+    rewrite panicked_map_same by apply i_dims_is_panic. auto.
+  - (* ForceI *) destruct IHe as [P F].
+    assert (map key (map (i_force f) (spec_calls e)) = map key (spec_calls e)) as E
+      by (rewrite map_map; apply map_ext; apply key_i_force).
+    split.
+    + eapply prefix_trans; [apply prefix_map, prefix_cut | rewrite E; exact P].
+    + intros H. rewrite panicked_cut in H. rewrite cut_no_panic, E by exact H.
+      apply F. eapply panicked_map_keeps; [apply i_force_keeps | exact H].
+Qed.
+
+Theorem calls_keys : forall e,
+  prefix (keys (calls e)) (leaf_keys e) /\ (panicked (calls e) = false -> keys (calls e) = leaf_keys e).
+Proof. intros e; rewrite calls_spec; apply spec_keys. Qed.
+
+(* ------------------------------------------------------------------ a metric's own dimensions always come first *)
+Definition v_dims_of (c : vcall) : dims := match c with VMetric _ _ ds _ => ds | _ => [] end.
+Definition extends (i l : item) : Prop := exists x, item_dims i = item_dims l ++ x.
+
+Lemma spec_v_extends : forall v, spec_v v <> VPanic -> exists x, v_dims_of (spec_v v) = v_dims_of (vleaf v) ++ x.
+Proof.
+  induction v; cbn [spec_v vleaf]; intros H; try (exists []; rewrite app_nil_r; reflexivity); auto.
+  - assert (spec_v v <> VPanic) as H' by (intros E; apply H; rewrite E; reflexivity).
+    destruct (IHv H') as [x IH]. destruct (spec_v v); cbn in *; eauto.
+    exists (x ++ d). rewrite IH, app_assoc; reflexivity.
+  - assert (spec_v v <> VPanic) as H' by (intros E; apply H; rewrite E; reflexivity).
+    destruct (IHv H') as [x IH]. destruct (spec_v v); cbn in *; eauto.
+    destruct (try_merge fl (Some f)); cbn; [eauto | congruence].
+  - assert (spec_v v <> VPanic) as H' by (intros E; apply H; rewrite E; reflexivity).
+    destruct (IHv H') as [x IH]. destruct (spec_v v); cbn in *; eauto.
+    exists (x ++ d). rewrite IH, app_assoc; reflexivity.
+Qed.
+
+Lemma extends_i_dims : forall d i l, extends i l -> extends (i_dims d i) l.
+Proof.
+  unfold extends. intros d i l [x H]. destruct i as [| |n c]; cbn in *; eauto. destruct c; cbn in *; eauto.
+  exists (x ++ d). rewrite H, app_assoc; reflexivity.
+Qed.
+Lemma extends_i_gdims : forall d deny i l, extends i l -> extends (i_gdims d deny i) l.
+Proof.
+  intros d deny i l H. destruct i as [| |n c]; cbn [i_gdims]; auto. destruct (mem n deny); auto.
+  apply (extends_i_dims d (IValue n c)); auto.
+Qed.
+Lemma extends_i_force : forall f i l, is_panic (i_force f i) = false -> extends i l -> extends (i_force f i) l.
+Proof.
+  unfold extends. intros f i l P [x H]. destruct i as [| |n c]; cbn in *; eauto. destruct c; cbn in *; eauto.
+  destruct (try_merge fl (Some f)); cbn in *; [eauto | discriminate].
+Qed.
+
+Lemma Forall2_map_l : forall {A B C} (R : B -> C -> Prop) (f : A -> B) l l',
+  Forall2 (fun a c => R (f a) c) l l' -> Forall2 R (map f l) l'.
+Proof. induction 1; cbn; constructor; auto. Qed.
+
+Lemma Forall2_imp : forall {A B} (R R' : A -> B -> Prop) l l', (forall a b, R a b -> R' a b) -> Forall2 R l l' -> Forall2 R' l l'.
+Proof. induction 2; constructor; auto. Qed.
+
+Theorem spec_dims_first : forall e, panicked (spec_calls e) = false ->
+  Forall2 extends (spec_calls e) (map leaf_item (leaves e)).
+Proof.
+  induction e; cbn [spec_calls leaves]; intros H; try constructor; auto.
+  - (* Plain *) rewrite panicked_cut in H. rewrite cut_no_panic by exact H.
+    induction s as [|it r IH]; cbn in *; constructor.
+    + unfold panicked in H; cbn in H. apply orb_false_iff in H as [H1 _].
+      destruct it; cbn in *; try (exists []; reflexivity).
+      destruct (spec_v_extends v) as [x E]; [intros X; rewrite X in H1; discriminate|].
+      exists x. destruct (spec_v v), (vleaf v); cbn in *; auto.
+    + apply IH. unfold panicked in *; cbn in H. apply orb_false_iff in H as [_ H2]; exact H2.
+  - rewrite panicked_cut in H. rewrite cut_no_panic by exact H. rewrite panicked_app in H.
+    apply orb_false_iff in H as [H1 H2]. rewrite map_app. apply Forall2_app; auto.
+  - rewrite panicked_cut in H. rewrite cut_no_panic by exact H. rewrite panicked_app in H.
+    apply orb_false_iff in H as [H1 H2]. rewrite map_app. apply Forall2_app; auto.
+  - rewrite panicked_map_same in H by apply i_dims_is_panic. apply Forall2_map_l.
+    eapply Forall2_imp; [|apply IHe; exact H]. intros; apply extends_i_dims; auto.
+  - rewrite panicked_map_same in H by apply i_gdims_is_panic. apply Forall2_map_l.
+    eapply Forall2_imp; [|apply IHe; exact H]. intros; apply extends_i_gdims; auto.
+  - rewrite panicked_cut in H. rewrite cut_no_panic by exact H.
+    assert (panicked (spec_calls e) = false) as H' by (eapply panicked_map_keeps; [apply i_force_keeps | exact H]).
+    specialize (IHe H'). clear H'. revert H. induction IHe as [|i l r r' R _ IH]; cbn; intros H; constructor.
+    + unfold panicked in H; cbn in H. apply orb_false_iff in H as [H1 _]. apply extends_i_force; auto.
+    + apply IH. unfold panicked in *; cbn in H. apply orb_false_iff in H as [_ H2]; exact H2.
+  - rewrite panicked_map_same in H by apply i_dims_is_panic. apply Forall2_map_l.
+    eapply Forall2_imp; [|apply IHe; exact H]. intros; apply extends_i_dims; auto.
+  - rewrite panicked_cut in H. rewrite cut_no_panic by exact H.
+    assert (panicked (spec_calls e) = false) as H' by (eapply panicked_map_keeps; [apply i_force_keeps | exact H]).
+    specialize (IHe H'). clear H'. revert H. induction IHe as [|i l r r' R _ IH]; cbn; intros H; constructor.
+    + unfold panicked in H; cbn in H. apply orb_false_iff in H as [H1 _]. apply extends_i_force; auto.
+    + apply IH. unfold panicked in *; cbn in H. apply orb_false_iff in H as [_ H2]; exact H2.
+Qed.
+Theorem calls_dims_first : forall e, panicked (calls e) = false ->
+  Forall2 extends (calls e) (map leaf_item (leaves e)).
+Proof. intros e; rewrite calls_spec; apply spec_dims_first. Qed.
